@@ -218,6 +218,15 @@ stray </ruby> <rt>annotation</rt> <ruby>unclosed <rt>anno
 
 00:00:06.000 --> 00:00:07.000
 <ruby>only base</ruby> <ruby><rt>only text</rt></ruby> <ruby></ruby>
+
+00:00:07.000 --> 00:00:08.000 position:50,auto size:40% line:abc,start align:middle vertical:sideways region:none
+settings with values that are not quite right
+
+00:00:08.000 --> 00:00:09.000 position:50%,auto line:5,auto size:40 align:start,end position:,line-left
+more of them
+
+00:00:09.000 --> 00:00:10.000 position:10%,line-left,extra line:-0 size:100.5% align:
+and the last ones
 """.encode("utf-8")
 
 SCC_1 = b"""Scenarist_SCC V1.0
@@ -297,7 +306,7 @@ def srt_deep(depth=150):
 
 def seeds():
   """format -> list of (name, bytes)."""
-  out = {"ttml": [("hand1", TTML_1), ("hand2_ruby", TTML_2), ("hand3_cycles_subms", TTML_3), ("hand4_nested_open", TTML_4), ("hand5_nested_regions", TTML_5)], "srt": [("hand1", SRT_1), ("hand2_colours", SRT_2), ("hand3_deep_tags", srt_deep()), ("hand4_carried_tags", SRT_3)],
+  out = {"ttml": [("hand1", TTML_1), ("hand2_ruby", TTML_2), ("hand3_cycles_subms", TTML_3), ("hand4_nested_open", TTML_4), ("hand5_nested_regions", TTML_5)], "srt": [("hand1", SRT_1), ("hand2_colours", SRT_2), ("hand3_deep_tags", srt_deep()), ("hand4_carried_tags", SRT_3), ("hand5_very_deep_tags", srt_deep(700))],
          "vtt": [("hand1", VTT_1), ("hand2_ruby", VTT_2)], "scc": [("hand1", SCC_1)], "stl": [("hand_cumulative", stl_hand())]}
   for f in sorted(glob.glob(RES + "/ttml/*.ttml"))[:4]:
     out["ttml"].append((os.path.basename(f), open(f, "rb").read()))
